@@ -27,6 +27,8 @@ type vdCase struct {
 		Ideal json.RawMessage `json:"ideal"`
 		Alts  []altExp        `json:"alts"`
 	} `json:"exp"`
+	VKey string `json:"vkey"` // the key the validators are written under ("" = validate)
+	VOpt string `json:"vopt"` // the ValidatorTag option ("" = not given)
 }
 
 var vdBase = map[string]string{"pint": "int", "pdur": "dur", "pstring": "string", "pfloat64": "float64"}
@@ -145,7 +147,16 @@ func validatorsReplay(args []string) int {
 		}
 		tag := `config:"f"`
 		if c.Tag != "" {
-			tag += fmt.Sprintf(` validate:"%s"`, c.Tag)
+			vkey := c.VKey
+			if vkey == "" {
+				vkey = "validate"
+			}
+			tag += fmt.Sprintf(` %s:"%s"`, vkey, c.Tag)
+		}
+		var uopts []ucfg.Option
+		if c.VOpt != "" {
+			uopts = append(uopts, ucfg.ValidatorTag(c.VOpt))
+			rep.class("validatortag-option")
 		}
 		st := reflect.StructOf([]reflect.StructField{{Name: "F", Type: ft, Tag: reflect.StructTag(tag)}})
 		var settings []interface{}
@@ -181,7 +192,7 @@ func validatorsReplay(args []string) int {
 					got = "build: " + err.Error()
 					return
 				}
-				if err := cfg.Unpack(target.Interface()); err != nil {
+				if err := cfg.Unpack(target.Interface(), uopts...); err != nil {
 					got = "err:" + errPath(err)
 					return
 				}
